@@ -11,6 +11,8 @@ from props import fam_map as F
 FIELDS = ['nx', 'ny', 'nz', 'mode', 'sx', 'sy', 'sz', 'mx', 'my', 'mz', 'mapc', 'mapr', 'maps', 'ispg']
 
 
+MANIFEST = {'technique': 'Coq proof (CCP4 set-up index bounds from exactly the checks the code makes, symmetry expansion in bounds for every table row, gzip growth loop terminates, MemoryStream never past the end; snapshot behaviour refuted with witnesses) + outcome-class differential check + sanitizer/timeout runs on corrupted and truncated files', 'text': 'Theorems (repaired code): for every header and data vector the re-indexing of setup() in every mode returns or throws and never indexes outside the grid, assuming only the tests the code itself makes; symmetrize_using_ops is in bounds for every table row on an accepted grid; the gzip buffer-growth loop finishes within `total` iterations with an exception or exactly `total` bytes; the MemoryStream cursor stays in [0, size] and every copied range is inside the buffer over arbitrary operation sequences. The snapshot versions are refuted by vm_compute witnesses (zero sampling word -> remainder by zero, wrapped point counts, ISIZE = 0 non-termination, skip past the end). Outcome class (OK/EXC) of gemmi vs model for 14 header words x boundary values x modes x Ccp4<float>/<int8_t>; truncation at every offset through memory/file/gzip; random multi-word corruption; MTZ files likewise (ASan+UBSan build and a UBSan+RLIMIT_AS build with per-case alarm). The MTZ reader skeleton is NOT modelled (sanitizer runs only).', 'note': 'Trusted: Coq kernel; extraction; harness; sanitizers. No axioms. zlib, allocation failure and real pointer overflow are outside the model.'}
+
 def setup_line(T, f, swap, smode, dflt, seed):
     return 'setup\t%s %s %d %d %d %d' % (T, ' '.join(str(f[k]) for k in FIELDS), swap, smode, dflt, seed)
 
